@@ -20,6 +20,7 @@ type zzL2Mon struct {
 	incs     int
 	crashes  int
 	produced int
+	crashStarted bool // the first incarnation panics in its Started handler (on the spawning goroutine)
 }
 
 type zzL2Actor struct {
@@ -42,6 +43,15 @@ func (a *zzL2Actor) Receive(c *Context) {
 		m.recs = append(m.recs, zzRec{inc: a.inc, kind: zzKInit})
 	case Started:
 		m.recs = append(m.recs, zzRec{inc: a.inc, kind: zzKStarted})
+		if m.crashStarted && a.inc == 1 {
+			m.crashes++
+			m.recs[len(m.recs)-1].crashed = true
+			zzrt.Yield()
+			if m.active != 1 {
+				m.overlap = true
+			}
+			panic("zz-crash-started")
+		}
 	case Stopped:
 		m.recs = append(m.recs, zzRec{inc: a.inc, kind: zzKStopped})
 	case zzUser:
@@ -87,10 +97,14 @@ func ZZ_L2() {
 		return newProcess(e, opts)
 	}
 	p := mk(0)
+	if prop == 2 && crashOK && zzrt.NondetBool("crashInStarted") {
+		mon.crashStarted = true
+		zzrt.Reach("restart-during-spawn")
+	}
 	poisonDone, drainedFirst, doneEarly := false, true, false
 	accepted := make([][]bool, T)
 	crashBudget := 0
-	if crashOK {
+	if crashOK && !mon.crashStarted {
 		crashBudget = 1
 	}
 	zzrt.Go(func() { e.SpawnProc(p) })
